@@ -70,6 +70,15 @@ def key_class(t):
 
 # --------------------------------------------------------------------------- roots and the pool
 
+class PoolLoadFailure(Machinery):
+    """paramiko could not load back a private key file that paramiko itself had just written (with the right
+    passphrase).  For C36 that is an observation to be judged (round trip), for other checks a machinery failure."""
+
+    def __init__(self, root, way, passphrase, exc):
+        Machinery.__init__(self, "cannot obtain file_pem key of %r via %s: %s: %s" % (root, way, type(exc).__name__, exc))
+        self.root, self.way, self.passphrase, self.exc = root, way, passphrase, exc
+
+
 class Root:
     """one real key pair: where it comes from and (for RSA / ECDSA) the `cryptography` private key"""
 
@@ -255,14 +264,53 @@ class KeyPool:
                 text = root.priv.private_bytes(ser.Encoding.PEM, ser.PrivateFormat.OpenSSH, enc)
                 with open(path, "wb") as f:
                     f.write(text)
-        if way in ("filename", "encrypted"):
-            return cls(filename=path, password=pw)
-        if way == "file_obj":
-            with open(path) as f:
-                return cls.from_private_key(io.StringIO(f.read()), password=pw)
-        if way == "from_path":
-            return paramiko.PKey.from_path(path, passphrase=pw.encode() if pw else None)
+        try:
+            if way in ("filename", "encrypted"):
+                return cls(filename=path, password=pw)
+            if way == "file_obj":
+                with open(path) as f:
+                    return cls.from_private_key(io.StringIO(f.read()), password=pw)
+            if way == "from_path":
+                return paramiko.PKey.from_path(path, passphrase=pw.encode() if pw else None)
+        except Exception as e:
+            if prov == "file_pem" and root.type != "ed25519":     # written by paramiko a few lines above
+                raise PoolLoadFailure(root, way, pw, e)
+            raise
         raise Machinery("unknown way " + way)
+
+
+# --------------------------------------------------------------------------- legacy encrypted PEM
+
+def legacy_pem(priv, cipher_name, passphrase, salt):
+    """the traditional OpenSSL encrypted PEM (Proc-Type: 4,ENCRYPTED / DEK-Info) of an RSA or EC private key,
+    produced by the harness for the ciphers paramiko reads but `cryptography` no longer writes
+    (AES-128-CBC, DES-EDE3-CBC).  Key derivation: MD5(passphrase || salt[:8]) chain; PKCS#7 padding."""
+    import hashlib
+    from cryptography.hazmat.primitives import serialization as ser, padding
+    from cryptography.hazmat.primitives.ciphers import Cipher, algorithms, modes
+    try:
+        from cryptography.hazmat.decrepit.ciphers.algorithms import TripleDES
+    except ImportError:
+        TripleDES = algorithms.TripleDES
+    alg, keysize, block = {"AES-128-CBC": (algorithms.AES, 16, 16), "AES-256-CBC": (algorithms.AES, 32, 16),
+                           "DES-EDE3-CBC": (TripleDES, 24, 8)}[cipher_name]
+    der = priv.private_bytes(ser.Encoding.DER, ser.PrivateFormat.TraditionalOpenSSL, ser.NoEncryption())
+    keydata, digest = b"", b""
+    while len(keydata) < keysize:
+        digest = hashlib.md5(digest + passphrase.encode("utf-8") + salt[:8]).digest()
+        keydata += digest
+    padder = padding.PKCS7(block * 8).padder()
+    enc = Cipher(alg(keydata[:keysize]), modes.CBC(salt)).encryptor()
+    body = enc.update(padder.update(der) + padder.finalize()) + enc.finalize()
+    tag = "RSA" if hasattr(priv, "private_numbers") and hasattr(priv.private_numbers(), "p") else "EC"
+    b64 = base64.encodebytes(body).decode()
+    return ("-----BEGIN %s PRIVATE KEY-----\nProc-Type: 4,ENCRYPTED\nDEK-Info: %s,%s\n\n%s-----END %s PRIVATE KEY-----\n"
+            % (tag, cipher_name, salt.hex().upper(), b64, tag))
+
+
+def der_length(priv):
+    from cryptography.hazmat.primitives import serialization as ser
+    return len(priv.private_bytes(ser.Encoding.DER, ser.PrivateFormat.TraditionalOpenSSL, ser.NoEncryption()))
 
 
 # --------------------------------------------------------------------------- certificates
@@ -486,6 +534,17 @@ def render_tamper(g, cls, arg, rnd):
         else:
             sb = _flip(sb, 7)
         return g.build(blob=ssh_string(rb) + ssh_string(sb)), "negative mpint (%s)" % c
+    if cls == "inner_sign_dropped":
+        rb, sb = mpint(g.r), mpint(g.s)
+        cands = [x for x, b in (("r", rb), ("s", sb)) if b[0] == 0]      # top bit of the value set <=> sign octet present
+        if not cands:
+            return None
+        c = rnd.choice(cands + (["both"] if len(cands) == 2 else []))
+        if c in ("r", "both"):
+            rb = rb[1:]
+        if c in ("s", "both"):
+            sb = sb[1:]
+        return g.build(blob=ssh_string(rb) + ssh_string(sb)), "sign octet of %s deleted" % c
     if cls == "inner_zero":
         c = rnd.choice(["r", "s", "both", "r_00"])
         rb = b"" if c in ("r", "both") else b"\x00" if c == "r_00" else None
